@@ -63,6 +63,8 @@ TRANSPARENT = {
     "std::string::String::as_str", "std::vec::Vec::as_slice", "std::convert::Into::into",
     "std::borrow::Borrow::borrow", "std::ops::DerefMut::deref_mut", "std::hint::must_use",
     "std::convert::From::from", "std::sync::Arc::as_ref",
+    "std::option::Option::copied", "std::option::Option::cloned", "std::iter::Iterator::copied",
+    "std::iter::Iterator::cloned", "std::option::Option::as_ref", "std::option::Option::as_deref",
 }
 MIN_FNS = {"std::cmp::min", "std::cmp::Ord::min", "core::cmp::Ord::min", "core::cmp::min"}
 MAX_FNS = {"std::cmp::max", "std::cmp::Ord::max", "core::cmp::Ord::max", "core::cmp::max"}
@@ -218,6 +220,8 @@ class FnView:
                 return inner[2 + v[2]]
             return ("variant", v[1], v[2], inner)
         if t == "pfield":
+            if str(v[1]).isdigit():
+                return ("proj", int(v[1]), self.val_term(v[2], depth))
             return ("field", self.val_term(v[2], depth), v[1])
         return ("opaque",) + tuple(v[1:])
 
@@ -270,6 +274,12 @@ class FnView:
                 return T(n["e"])
             return ("cast", ty, T(n["e"]))
         if k == "field":
+            if n["name"].isdigit():
+                base = T(n["e"])
+                i = int(n["name"])
+                if base[0] == "tup" and i < len(base) - 1:
+                    return base[1 + i]
+                return ("proj", i, base)
             return ("field", T(n["e"]), n["name"])
         if k == "index":
             return ("index", T(n["e"]), T(n["i"]))
@@ -1247,12 +1257,24 @@ def sym_paths(fv, root, limit=60000):
         return False
 
     raw = enum_paths_atomic(root, want, limit)
+    inl = fv
     fv = FnView(fv.prog, fv.fn, inline_lets=False)   # lets are evaluated where they stand
+    # immutable lets evaluated once BEFORE root (e.g. a hoisted `let n = self.w - self.m + 1;`) keep their
+    # value through every iteration provided they read nothing that root assigns
+    inside = set(id(x) for x in walk(root))
+    mutated = assigned_in(inl, root)
+    outer = {}
+    for n in inl.nodes:
+        if n.get("k") == "let" and id(n) not in inside and n["pat"].get("k") == "pbind" and n.get("init") is not None \
+                and inl.local_is_inlinable(n["pat"]["id"]):
+            t = inl.term(n["init"])
+            if not contains(t, lambda s_: s_ in mutated or s_[0] in ("loopval", "ver")):
+                outer[("local", n["pat"]["name"], n["pat"]["id"])] = t
     out = []
     for ev, ex in raw:
         sp = SymPath()
         sp.view = fv
-        st = {}
+        st = dict(outer)
         vers = {}
 
         def cur(t):
@@ -1305,6 +1327,9 @@ def sym_paths(fv, root, limit=60000):
                 sp.events.append(("ev", n))
         if not feasible:
             continue
+        for k_ in outer:
+            if st.get(k_) == outer[k_]:
+                del st[k_]
         sp.state = st
         sp.exit = ex
         out.append(sp)
